@@ -13,7 +13,9 @@ RULES = {
     "C16.R2": "collapsed groups: an affine scale can be zero only for an all-zero group, i.e. the affine range includes zero",
     "C16.R3": "the zero-point and the int8 subtraction of the dequantizer stay in range (needs R2)",
     "C16.R5": "one-sided rows: the default symmetric optimizer and absmax_scale take the maximum of |x| on every path (a row whose extreme is negative still gets absmax/qmax)",
+    "C16.R8": "the largest code times the scale stays representable: a scale obtained by dividing an extremum by the code range is rounded to nearest, so multiplying it back can exceed the extremum by an ulp - when the extremum is the largest number of the dtype the dequantized value is inf; the scale must be bounded above (clamp / minimum against finfo(dtype).max over the code range) or rounded down",
     "C16.R6": "magnitudes near the dtype maximum: the affine range width and the zero-point are computed without an intermediate that exceeds the extrema themselves (no raw `rmax - rmin` of opposite-sign extrema, no extremum multiplied by the code span)",
+    "C16.R9": "inference after calibration stays finite and uses the current weights: the quantized linear applies every scale before the accumulator is narrowed to the module dtype (C07.R2: a partially scaled product overflows float16 although the result is representable), and the dynamic weight is quantized from the current self.weight on every access (a layer whose weights were zeroed outputs its bias)",
     "C16.R7": "the error bounds of C01/C02 hold on the degenerate classes too: the quantizer pipelines of C01.R1 (divide by the stored scale, sanitise, round iff integer, clamp to the storage range for EVERY qtype, cast) and C02.R1/R3 (divide by the stored scale with no offset, round, add zero-point, clamp, cast; matching dequantizer) are re-checked here",
     "C16.R4": "dequantization multiplies codes by the scale only: a zero scale yields exactly zero, a finite scale finite values",
 }
@@ -96,10 +98,24 @@ def run(chk):
         chk.require("C16.R4", f"{dq.mod.rel}:{fw.lineno}", not divs and not calls, f"{cname}.forward only multiplies and subtracts (divisions: {divs}, calls: {calls})", f"{cname}.forward", "dequantizer arithmetic", "a zero scale or zero code: division by zero on dequantization")
     abs_rule(chk)
     overflow_rule(chk)
+    scale_bound_rule(chk)
     from ..report import AliasedCheck
     from . import c01
     c01.run(AliasedCheck(chk, {"C01.R1": "C16.R7"}))
     c02.run(AliasedCheck(chk, {"C02.R1": "C16.R7", "C02.R3": "C16.R7"}))
+    if chk.pid == "C16":
+        # "calibration followed by inference": the linear route never narrows an accumulator whose payloads are not all scaled yet
+        # (C07.R2, single rounding), and a layer computes with its CURRENT weights (zero weights -> exactly the bias): weight-source rule
+        from . import c07
+        from .c09 import qweight_source
+        hn = {}
+        for nm in c07.HELPERS:
+            try:
+                hn[nm] = repo.func(nm)[1]
+            except AnalysisError:
+                pass
+        c07.linear_forward(AliasedCheck(chk, {"C07.R2": "C16.R9"}), hn)
+        qweight_source(chk, r2="C16.R9", r3="C16.R9")
     chk.assume("x * 0 == 0 and finite * finite is finite within the dtype range; overflow near the dtype maximum is decided for the affine range width and zero-point only (C16.R6), where an intermediate can exceed the data by construction")
 
 
@@ -142,6 +158,35 @@ def _is_extremum(e, b) -> bool:
         if r is not None and r.reduce in ("amax", "amin", "max", "min") and r.source == b:
             return True
     return False
+
+
+def scale_bound_rule(chk, rule="C16.R8"):
+    """C16.R8: every default optimizer bounds its scale so that qmax * scale is representable."""
+    repo = chk.repo
+    mi_q, _ = repo.func("quantize_weight")
+    n = 0
+    for dname, what, wit in (("default_affine_optimizer", "affine", "a float16 group [0, 65504] quantized to qint4: scale = 65504/15 rounds up to 4368 and 15 * 4368 = 65520 is inf in float16"),
+                             ("default_symmetric_optimizer", "symmetric", "a float16 (or float32) row containing +/- the largest number of the dtype, qint8 or float8: scale = 65504/127 rounds up to 516 and 127 * 516 is inf")):
+        default = mi_q.defs.get(dname)
+        if not (isinstance(default, ast.Call) and isinstance(default.func, ast.Name)):
+            chk.unknown(rule, mi_q.rel, f"{dname} not found")
+            continue
+        oci, opt = repo.method(repo.cls(default.func.id, mi_q), "optimize")
+        qn = f"{oci.name}.optimize"
+        for p in paths_of(opt):
+            if p.end[0] != "return" or p.end[1] is None:
+                continue
+            sc = p.end[1].elts[0] if isinstance(p.end[1], ast.Tuple) else p.end[1]
+            n += 1
+            bounded = False
+            for x in ast.walk(sc):
+                if isinstance(x, ast.Call) and (U(x.func) in ("torch.clamp", "torch.minimum", "torch.clamp_max") or (isinstance(x.func, ast.Attribute) and x.func.attr in ("clamp", "clamp_max", "minimum"))):
+                    if "finfo" in U(x) or "dtype_info" in U(x):
+                        bounded = True
+                if isinstance(x, ast.Call) and U(x.func) in ("torch.nextafter",):
+                    bounded = True
+            chk.require(rule, f"{oci.mod.rel}:{p.end[2]}", bounded, f"{qn}: the {what} scale `{U(sc)[:70]}` is bounded so that the extreme code times the scale stays representable", qn, "scale times the extreme code can overflow", wit)
+    chk.floor(rule, n, 2, "default optimizer return paths")
 
 
 def overflow_rule(chk):
